@@ -70,6 +70,7 @@ type Obligation struct {
 	Known   string
 	Candidate bool // the model comes from the quantifier-free relaxation
 	Block   *ssa.BasicBlock
+	Splits  []string    // case-split hints (Boolean terms defined in the context): tried when the plain query is not decided
 	EnvFn   func() *Env // environment in which a known-finding region is evaluated (loop clauses: iteration start)
 }
 
@@ -118,7 +119,12 @@ type VC struct {
 	storeHeap *Heap
 	tagBlock *ssa.BasicBlock // while a latch block is executed once per predecessor: that predecessor
 	dupSfx   string
+	dupRet   int
 	fp       string
+	lineTags [][]string // property tags of the contract clause a line was assumed from (nil: structural line)
+	curTags  []string
+	splitTerms []splitTerm
+	lightMode bool
 	lineBlock []int
 	anc      map[*ssa.BasicBlock]map[int]bool
 }
@@ -137,6 +143,7 @@ func newVC(p *Program, fn *ssa.Function) *VC {
 
 func (vc *VC) emit(s string) {
 	vc.lines = append(vc.lines, s)
+	vc.lineTags = append(vc.lineTags, vc.curTags)
 	bi := -1
 	if vc.tagBlock != nil {
 		bi = vc.tagBlock.Index
@@ -247,7 +254,7 @@ func (vc *VC) wfOf(v string, t types.Type, alloc string, depth int) string {
 	switch tt := t.Underlying().(type) {
 	case *types.Slice:
 		return and(app("<=", app("s.arr", v), alloc), app(">=", app("s.arr", v), "0"), app(">=", app("s.off", v), "0"), app(">=", app("s.len", v), "0"),
-			app(">=", app("s.cap", v), app("s.len", v)), app("<=", app("s.cap", v), "9223372036854775807"))
+			app(">=", app("s.cap", v), app("s.len", v)), app("<=", app("s.cap", v), "9223372036854775807"), implies(eq(app("s.arr", v), "0"), eq(app("s.cap", v), "0")))
 	case *types.Interface:
 		return and(app(">=", app("i.tag", v), "0"), app(">=", app("i.val", v), "0"), app("<=", app("i.val", v), alloc), implies(eq(app("i.tag", v), "0"), eq(app("i.val", v), "0")))
 	case *types.Pointer, *types.Map, *types.Chan, *types.Signature:
@@ -512,7 +519,8 @@ func (vc *VC) allocated(h *Heap, t Term) string {
 	case SIface:
 		return and(app("<=", app("i.val", t.S), a), app(">=", app("i.tag", t.S), "0"), app(">=", app("i.val", t.S), "0"), implies(eq(app("i.tag", t.S), "0"), eq(app("i.val", t.S), "0")))
 	case SSlice:
-		return and(app("<=", app("s.arr", t.S), a), app(">=", app("s.arr", t.S), "0"), app(">=", app("s.off", t.S), "0"), app(">=", app("s.len", t.S), "0"), app(">=", app("s.cap", t.S), app("s.len", t.S)), app("<=", app("s.cap", t.S), "9223372036854775807"))
+		return and(app("<=", app("s.arr", t.S), a), app(">=", app("s.arr", t.S), "0"), app(">=", app("s.off", t.S), "0"), app(">=", app("s.len", t.S), "0"), app(">=", app("s.cap", t.S), app("s.len", t.S)), app("<=", app("s.cap", t.S), "9223372036854775807"),
+			implies(eq(app("s.arr", t.S), "0"), eq(app("s.cap", t.S), "0")))
 	case SInt:
 		if t.T != nil && isRefType(t.T) {
 			return and(app("<=", t.S, a), app(">=", t.S, "0"))
@@ -545,6 +553,15 @@ func (vc *VC) oblige(kind, label string, tags []string, reach, goal, src string)
 	o := &Obligation{Name: name, Kind: kind, Tags: tags, Prefix: len(vc.lines), Goal: cse(implies(reach, goal)), Src: src, Pos: pos, Fn: vc.key, Block: vc.curBlock}
 	if vc.tagBlock != nil {
 		o.Block = vc.tagBlock
+	}
+	// case-split hints: the most recent append decisions on the way to this point
+	if o.Block != nil {
+		anc := vc.ancestors(o.Block)
+		for i := len(vc.splitTerms) - 1; i >= 0 && len(o.Splits) < 2; i-- {
+			if anc[vc.splitTerms[i].block] {
+				o.Splits = append(o.Splits, vc.splitTerms[i].term)
+			}
+		}
 	}
 	vc.obls = append(vc.obls, o)
 	return o
@@ -597,31 +614,54 @@ func (vc *VC) unsupportedf(format string, args ...interface{}) {
 }
 
 // query text for one obligation
+func (vc *VC) queryLight(o *Obligation) string {
+	vc.mu.Lock()
+	defer vc.mu.Unlock()
+	vc.lightMode = true
+	defer func() { vc.lightMode = false }()
+	return vc.queryLocked(o, false)
+}
+
 func (vc *VC) query(o *Obligation, produceModel bool) string {
 	vc.mu.Lock()
 	defer vc.mu.Unlock()
+	return vc.queryLocked(o, produceModel)
+}
+
+func (vc *VC) queryLocked(o *Obligation, produceModel bool) string {
 	var b strings.Builder
-	if produceModel {
-		b.WriteString("(set-option :produce-models true)\n")
-	}
-	b.WriteString(vc.u.preamble())
 	var anc map[int]bool
 	if o.Block != nil {
 		anc = vc.ancestors(o.Block)
 	}
+	var sel []string
 	for i, l := range vc.lines[:o.Prefix] {
 		// slice: only lines emitted while executing blocks from which the obligation's block is reachable
 		if anc != nil && vc.lineBlock[i] >= 0 && !anc[vc.lineBlock[i]] {
 			continue
 		}
-		b.WriteString(l)
-		b.WriteString("\n")
+		if vc.lightMode && len(o.Tags) > 0 && len(vc.lineTags[i]) > 0 && !tagsMeet(o.Tags, vc.lineTags[i]) {
+			continue // light query: facts assumed from clauses of other properties only are left out
+		}
+		sel = append(sel, l)
+	}
+	keep := coneOfInfluenceLevel(sel, []string{o.Goal}, vc.lightMode)
+	for i, l := range sel {
+		if keep[i] {
+			b.WriteString(l)
+			b.WriteString("\n")
+		}
 	}
 	fmt.Fprintf(&b, "(assert (not %s))\n(check-sat)\n", o.Goal)
 	if produceModel {
 		b.WriteString("(get-model)\n")
 	}
-	return b.String()
+	body := b.String()
+	pre := vc.u.preambleFor(body)
+	if produceModel {
+		pre = "(set-option :produce-models true)\n" + pre
+	}
+	return pre + body
 }
 
 // fingerprint of everything a query of this VC can contain (preamble and all lines, with their
@@ -649,28 +689,130 @@ func (vc *VC) oblKey(o *Obligation) string {
 	return fmt.Sprintf("%s|%d|%d|%s", vc.fingerprint(), o.Prefix, bi, o.Goal)
 }
 
+func isHubSymbol(sym string) bool {
+	return strings.HasPrefix(sym, "$alloc") || strings.HasPrefix(sym, "x24alloc!") || strings.HasPrefix(sym, "edge_") || strings.HasPrefix(sym, "reach_b")
+}
+
+var smtKeywords = map[string]bool{"assert": true, "forall": true, "exists": true, "let": true, "=>": true, "and": true, "or": true, "not": true, "=": true,
+	"ite": true, "select": true, "store": true, "Int": true, "Bool": true, "Str": true, "Array": true, "define-fun": true, "declare-const": true,
+	"declare-fun": true, "true": true, "false": true, "!": true, ":pattern": true, "<=": true, "<": true, ">=": true, ">": true, "+": true, "-": true,
+	"*": true, "div": true, "mod": true, "distinct": true, "Slice": true, "Iface": true, "as": true, "const": true, "_": true}
+
+// coneOfInfluence keeps the lines connected to the goal through shared symbols.  Allocation
+// watermarks and path conditions occur almost everywhere and do not propagate relevance; dropping
+// an assumption is always sound.
+var aggressiveSlice = false
+
+func isHub2(sym string) bool {
+	return isHubSymbol(sym) || strings.HasPrefix(sym, "p_") || strings.HasPrefix(sym, "fv_")
+}
+
+func coneOfInfluence(lines []string, goals []string) []bool {
+	return coneOfInfluenceLevel(lines, goals, false)
+}
+
+func coneOfInfluenceLevel(lines []string, goals []string, aggressive bool) []bool {
+	hub := isHubSymbol
+	if aggressive {
+		hub = isHub2
+	}
+	n := len(lines)
+	syms := make([]map[string]bool, n)
+	defs := make([]string, n)
+	for i, l := range lines {
+		m := map[string]bool{}
+		symbolsOf(l, m)
+		for k := range m {
+			if smtKeywords[k] || (k[0] >= '0' && k[0] <= '9') || strings.HasPrefix(k, "(") || strings.HasSuffix(k, "!q0") || strings.HasSuffix(k, "!q1") || strings.HasSuffix(k, "!q2") {
+				delete(m, k)
+			}
+		}
+		syms[i] = m
+		if strings.HasPrefix(l, "(define-fun ") || strings.HasPrefix(l, "(declare-const ") || strings.HasPrefix(l, "(declare-fun ") {
+			f := strings.Fields(l)
+			if len(f) > 1 {
+				defs[i] = f[1]
+			}
+		}
+	}
+	rel := map[string]bool{}
+	for _, g := range goals {
+		symbolsOf(g, rel)
+	}
+	keep := make([]bool, n)
+	for changed := true; changed; {
+		changed = false
+		for i := n - 1; i >= 0; i-- {
+			if keep[i] {
+				continue
+			}
+			take := false
+			if defs[i] != "" {
+				take = rel[defs[i]]
+			} else {
+				nonHub := 0
+				for k := range syms[i] {
+					if hub(k) {
+						continue
+					}
+					nonHub++
+					if rel[k] {
+						take = true
+					}
+				}
+				if nonHub == 0 {
+					for k := range syms[i] {
+						if rel[k] {
+							take = true
+						}
+					}
+				}
+			}
+			if take {
+				keep[i] = true
+				changed = true
+				for k := range syms[i] {
+					rel[k] = true
+				}
+			}
+		}
+	}
+	return keep
+}
+
 // queryBatch: one script deciding several obligations that share a program point (same context)
 func (vc *VC) queryBatch(os []*Obligation) string {
 	vc.mu.Lock()
 	defer vc.mu.Unlock()
 	o := os[0]
 	var b strings.Builder
-	b.WriteString(vc.u.preamble())
 	var anc map[int]bool
 	if o.Block != nil {
 		anc = vc.ancestors(o.Block)
 	}
+	var sel []string
 	for i, l := range vc.lines[:o.Prefix] {
 		if anc != nil && vc.lineBlock[i] >= 0 && !anc[vc.lineBlock[i]] {
 			continue
 		}
-		b.WriteString(l)
-		b.WriteString("\n")
+		sel = append(sel, l)
+	}
+	var goals []string
+	for _, g := range os {
+		goals = append(goals, g.Goal)
+	}
+	keep := coneOfInfluence(sel, goals)
+	for i, l := range sel {
+		if keep[i] {
+			b.WriteString(l)
+			b.WriteString("\n")
+		}
 	}
 	for _, g := range os {
 		fmt.Fprintf(&b, "(push 1)\n(assert (not %s))\n(check-sat)\n(pop 1)\n", g.Goal)
 	}
-	return b.String()
+	body := b.String()
+	return vc.u.preambleFor(body) + body
 }
 
 func sortedKeys(m map[string]bool) []string {
@@ -825,4 +967,30 @@ func (vc *VC) callLogDecl() {
 	vc.compDecl("Gcalls_n", SInt)
 	vc.compDecl("Gcalls_fn", "(Array Int Int)")
 	vc.compDecl("Gcalls_args", "(Array Int Slice)")
+}
+
+type splitTerm struct {
+	term  string
+	block int
+}
+
+func (vc *VC) noteSplit(term string) {
+	bi := -1
+	if vc.tagBlock != nil {
+		bi = vc.tagBlock.Index
+	} else if vc.curBlock != nil {
+		bi = vc.curBlock.Index
+	}
+	vc.splitTerms = append(vc.splitTerms, splitTerm{term, bi})
+}
+
+func tagsMeet(a, b []string) bool {
+	for _, x := range a {
+		for _, y := range b {
+			if x == y {
+				return true
+			}
+		}
+	}
+	return false
 }
